@@ -24,7 +24,15 @@ R2  1 + 3: the lookups of `self.task_map` are classified by the role of their ke
     structurally, anything else that mentions the handlers is undecided), nothing specific is added on a path after the
     decision (CFG reachability); beacon loop: single `for` over get_handlers(..), one handler(task) call per iteration
     (CFG reachability avoiding the loop header), send_callback controlled by the truthiness of the response; 6: constant
-    folding of the catch-all key and of the `getattr` name (literals, module / class constants).
+    folding of the catch-all key and of the `getattr` name (literals, module / class constants).  The task is located by
+    role: the local bound to get_task(), or the target of a `for` over a generator of the package every `yield` of which
+    yields a get_task() result (1: resolved callee + def-use substitution in the producer); a task that cannot be located
+    makes "handler(task)" undecided, not violated.  Failure containment (1, syntax-tree query on the enclosing statements
+    between a site and the dispatch loop, innermost first): the handler call and the send of its response - the code that
+    runs for ONE handler - sit in the body of a try statement (or contextlib.suppress) INSIDE the loop body whose `except`
+    clause takes class Exception (bare / Exception / BaseException, read off the clause) and does not leave the loop
+    (no break / return / raise in it); a try statement around the loop takes the exception only after the iteration over
+    the remaining handlers was abandoned.
 R3  4: abstract interpretation of run() (csverif.absint.Interp extended by `_Interp`) in the interval x parity domain with
     branch refinement, beacon_id = top; 6: constant operands folded.  Lemmas (all for Python ints, each one line):
       L1  x - x % 2, x - (x & 1), x ^ (x & 1) are even and lie in [x - 1, x]   (they clear bit 0: x % 2 = x & 1 in {0, 1})
@@ -194,7 +202,9 @@ def run(ctx):
         "(only register_task may append to a registered handler list; it adds the handler exactly once under its key); "
         "the catch-all lookups are controlled (CFG dominance or and/or/conditional-expression position) by the emptiness "
         "of an accumulator that has received every specific source, and no specific source is added after that decision; "
-        "single dispatch site in the beacon loop; parity/interval abstract interpretation of the beacon id that reaches "
+        "single dispatch site in the beacon loop (the task = the result of get_task(), also when it arrives through a generator of the package that "
+        "yields get_task() results); an Exception raised by the call of one handler or by the send of its response is taken by an except clause inside "
+        "the body of the loop over the handlers that goes on with the next handler (a failing handler does not end the dispatch of the task); parity/interval abstract interpretation of the beacon id that reaches "
         "the metadata; random.seed(f(normalised id)) dominates the draw that feeds aes_rand with no intervening RNG use; "
         "length interval of the metadata info bytes against 128-11-59; the sleep time as a polynomial normal form, affine in "
         "one uniform draw, whose values at the ends of the draw's range are compared with the jitter band; the name under "
@@ -212,6 +222,8 @@ def run(ctx):
         "enum members parsed from c_c2.py."
     )
     rep.not_decided = ["behaviour of the loop against a live server", "that handlers themselves behave",
+                       "BaseExceptions that are not Exceptions (KeyboardInterrupt, SystemExit) raised by a handler: they end the loop, as intended; exceptions raised by the "
+                       "logging call inside the except clause of the dispatch loop",
                        "the on_empty_task lookup for the empty task (command id None / a falsy member)",
                        "that callers (the command line) hand the user's sleeptime / jitter to run() unchanged",
                        "decorators that hand back / register a wrapper of the decorated function instead of the function itself (undecided)",
@@ -223,6 +235,8 @@ def run(ctx):
     rep.trusted_base = [
         "CPython ast", "networkx dominators", "interval/parity/length domains and SymPoly in csverif/absint.py",
         "may-alias / mutation analysis in csverif/alias.py",
+        "an exception raised in the body of a try statement is taken by the first except clause whose class matches, every handler failure the property is concerned with is an instance "
+        "of Exception; a generator body runs only when the consumer asks for the next item (one get_task() per iteration of the consuming for loop)",
         "lemmas (Python ints): x - x % 2, x - (x & 1), x ^ (x & 1) are even and in [x-1, x]; (x >> 1) << 1 and 2*x are even; "
         "x % 2 / x & 1 truthy <=> x odd; x >= 0 and not (x >> k) => x < 2**k; 0 <= x < 2**(k+1) and not (x & 2**k) => x < 2**k; "
         "x in range(a, b) <=> a <= x < b; x & m in [0, m] for m >= 0; x % m in [0, m-1] for m >= 1",
@@ -748,6 +762,7 @@ def _beacon_loop_rule(ctx):
     fv = FuncView.of(fn)
     cfg = ctx.cfg(lp)
     T_ONE, T_CB, T_CID = "single dispatch site", "send_callback on truthy response", "command_id = task.command.value"
+    T_FAIL = "failing handler does not end the dispatch"
 
     def is_method_call(c, name):
         if dotted(c.func) == f"self.{name}":
@@ -758,13 +773,39 @@ def _beacon_loop_rule(ctx):
     gh = [c for c in fn_calls(fn) if is_method_call(c, "get_handlers")]
     gt = [c for c in fn_calls(fn) if is_method_call(c, "get_task")]
     if not gh:
-        for t in (T_ONE, T_CB, T_CID):
+        for t in (T_ONE, T_CB, T_CID, T_FAIL):
             ctx.undecided("R2", "DOM", lp, t, "the beacon loop does not call get_handlers; the dispatch cannot be located")
         return
     # the names that hold the task
     task_names = {t.id for st in statements(fn) if isinstance(st, (ast.Assign, ast.AnnAssign)) and st.value is not None and any(st.value is c for c in gt)
                   for t in (st.targets if isinstance(st, ast.Assign) else [st.target]) if isinstance(t, ast.Name)}
     task_names |= {n.target.id for n in body_walk(fn) if isinstance(n, ast.NamedExpr) and any(n.value is c for c in gt)}
+
+    # producer / consumer split: `for task in self._producer():` where the producer is a generator of the package every
+    # item of which is the result of a get_task() call - the loop target holds the task (one get_task per iteration:
+    # a generator body runs only when the consumer asks for the next item)
+    def yields_tasks(callee):
+        if callee is None or callee.kind != "func" or callee.func is None:
+            return False
+        g = callee.func
+        ys = [n for n in body_walk(g.node) if isinstance(n, (ast.Yield, ast.YieldFrom))]
+        if not ys:
+            return False
+        for y in ys:
+            if isinstance(y, ast.YieldFrom) or y.value is None:
+                return False
+            v = inline(g.node, y.value)
+            if not (isinstance(v, ast.Call) and (dotted(v.func) == "self.get_task" or getattr(ctx.rs.resolve_call(g, v).func, "fq", None) == "client.HttpBeaconClient.get_task")):
+                return False
+        return True
+
+    for st in statements(fn):
+        if isinstance(st, (ast.For, ast.AsyncFor)) and isinstance(st.target, ast.Name):
+            it = inline(fn, st.iter)
+            if isinstance(it, ast.Call) and dotted(it.func) == "iter" and len(it.args) == 1 and isinstance(it.args[0], ast.Call):
+                it = it.args[0]
+            if isinstance(it, ast.Call) and yields_tasks(ctx.rs.resolve_call(lp, it)):
+                task_names.add(st.target.id)
 
     def is_task(e):
         e2 = e
@@ -798,6 +839,7 @@ def _beacon_loop_rule(ctx):
         if not fors:
             ctx.undecided("R2", "DOM", lp, T_ONE, "no `for` loop over the result of get_handlers(..) was located; the dispatch has a shape the rule does not understand")
             ctx.undecided("R2", "DOM", lp, T_CB, "the dispatch loop was not located")
+            ctx.undecided("R2", "ESC", lp, T_FAIL, "the dispatch loop was not located")
             _cid_rule(ctx, lp, gh, task_names, T_CID)
             return
         problems.append(f"{len(fors)} loops iterate over the handlers")
@@ -825,16 +867,25 @@ def _beacon_loop_rule(ctx):
     if hv is None:
         ctx.undecided("R2", "DOM", lp, T_ONE, "the loop over the handlers does not bind a single name")
         ctx.undecided("R2", "DOM", lp, T_CB, "the handler call was not located")
+        ctx.undecided("R2", "ESC", lp, T_FAIL, "the handler call was not located")
         _cid_rule(ctx, lp, gh, task_names, T_CID)
         return
     calls = [c for c in ast.walk(loop) if isinstance(c, ast.Call) and _is_name(c.func, hv)]
     header = cfg.node(loop)
+    task_unknown = None
     if not calls:
         problems.append("the handler is never called in the loop")
     for c in calls:
         cargs = list(c.args) + [k.value for k in c.keywords if k.arg is not None]
-        if len(cargs) != 1 or any(k.arg is None for k in c.keywords) or isinstance(cargs[0], ast.Starred) or not is_task(cargs[0]):
+        if len(cargs) != 1 or any(k.arg is None for k in c.keywords) or isinstance(cargs[0], ast.Starred):
             problems.append(f"`{src(c)[:40]}` is not handler(task)")
+        elif not is_task(cargs[0]):
+            if task_names or isinstance(inline(fn, cargs[0]), ast.Constant):
+                problems.append(f"`{src(c)[:40]}` is not handler(task)")
+            else:
+                # no local of the loop was recognised as the result of get_task(): the task comes from a producer the rule
+                # does not follow (not: a located task that is not handed over)
+                task_unknown = f"`{src(c)[:40]}`: the value that holds the task received from get_task() was not located in the loop"
         inner = [a for a in fv.ancestors(c) if isinstance(a, (ast.For, ast.AsyncFor, ast.While, ast.ListComp, ast.SetComp, ast.GeneratorExp, ast.DictComp)) and a is not loop and loop in fv.ancestors(a)]
         if inner:
             problems.append(f"`{src(c)[:40]}` sits in a nested loop")
@@ -849,6 +900,8 @@ def _beacon_loop_rule(ctx):
     ok = not problems
     if ok and unknown_wrapper:
         ctx.undecided("R2", "DOM", lp, T_ONE, f"the loop iterates `{unknown_wrapper}`; whether that keeps every handler exactly once is not known")
+    elif ok and task_unknown:
+        ctx.undecided("R2", "DOM", lp, T_ONE, task_unknown)
     else:
         ctx.ob("R2", "DOM", lp, T_ONE, ok, "each handler of the list returned by get_handlers(command_id) is called exactly once with the task" if ok else
                "dispatch is not one `for handler in get_handlers(..)` with one handler(task) call: " + "; ".join(problems))
@@ -876,7 +929,101 @@ def _beacon_loop_rule(ctx):
             if not guarded:
                 bad.append(f"`{src(c)[:50]}` is not guarded by the handler's response")
         ctx.ob("R2", "DOM", lp, T_CB, not bad, "a callback is sent only for a truthy handler response" if not bad else "send_callback not guarded by the handler's response: " + "; ".join(bad))
+    _containment_rule(ctx, lp, fv, fors, calls, [c for c in sc if any(l in fv.ancestors(c) for l in fors)], T_FAIL)
     _cid_rule(ctx, lp, gh, task_names, T_CID)
+
+
+def _catches_exception(h):
+    """the `except` clause takes every exception of class Exception: bare, `Exception`, `BaseException` (also in a tuple)"""
+    if h.type is None:
+        return True
+    ts = h.type.elts if isinstance(h.type, ast.Tuple) else [h.type]
+    return any(dotted(t) in ("Exception", "BaseException", "builtins.Exception", "builtins.BaseException") for t in ts)
+
+
+def _leaving_statements(body, depth=0):
+    """statements of `body` (no nested defs) that transfer control out of the enclosing loop: return, raise, and a
+    `break` that is not inside a loop nested in `body`"""
+    out = []
+    for st in body:
+        if isinstance(st, (ast.Return, ast.Raise)) or (isinstance(st, ast.Break) and depth == 0):
+            out.append(st)
+        elif isinstance(st, (ast.FunctionDef, ast.AsyncFunctionDef, ast.ClassDef)):
+            continue
+        elif isinstance(st, (ast.For, ast.AsyncFor, ast.While)):
+            out += _leaving_statements(st.body, depth + 1) + _leaving_statements(st.orelse, depth)
+        else:
+            for field in ("body", "orelse", "finalbody"):
+                out += _leaving_statements(getattr(st, field, []) or [], depth)
+            for h in getattr(st, "handlers", []) or []:
+                out += _leaving_statements(h.body, depth)
+            for c in getattr(st, "cases", []) or []:
+                out += _leaving_statements(c.body, depth)
+    return out
+
+
+def _containment_rule(ctx, lp, fv, loops, calls, sends, text):
+    """One iteration of the dispatch loop = one handler.  "Every handler registered for the command receives the task" can
+    only hold when the code that runs for one handler (the handler(task) call - foreign code - and the send of its
+    response) cannot end the iteration over the *remaining* handlers: an exception of class Exception raised there must be
+    taken by an `except` clause (or contextlib.suppress) that lies INSIDE the loop body, and that clause must not leave the
+    loop (break / return / raise).  Decided on the syntax tree (enclosing try statements between the site and the loop,
+    innermost first); the class caught is read off the `except` clause.  A try statement around the loop, or around a call
+    that contains the loop, takes the exception only after the iteration was abandoned."""
+    sites = [(c, "handler call") for c in calls] + [(c, "send of the response") for c in sends]
+    if not sites:
+        ctx.undecided("R2", "ESC", lp, text, "no handler call located in the dispatch loop")
+        return
+    bad, unknown = [], []
+    for site, what in sites:
+        anc = fv.ancestors(site)
+        loop = next((l for l in loops if l in anc), None)
+        if loop is None:
+            continue
+        # the chain site -> loop, innermost first
+        chain, child = [], site
+        par = fv.parent.get(id(child))
+        while par is not None and par is not loop:
+            chain.append((par, child))
+            child, par = par, fv.parent.get(id(par))
+        if par is None:
+            unknown.append(f"`{src(site)[:40]}`: enclosing statements not resolved")
+            continue
+        if any(isinstance(p, (ast.FunctionDef, ast.AsyncFunctionDef, ast.Lambda)) for p, _c in chain):
+            unknown.append(f"`{src(site)[:40]}` sits in a nested function")
+            continue
+        verdict = None
+        for p, ch in chain:
+            if isinstance(p, (ast.With, ast.AsyncWith)) and any(ch is b for b in p.body):
+                for it in p.items:
+                    e = it.context_expr
+                    if isinstance(e, ast.Call) and dotted(e.func) in ("suppress", "contextlib.suppress") and any(dotted(a) in ("Exception", "BaseException") for a in e.args):
+                        verdict = True
+                if verdict:
+                    break
+            if (isinstance(p, ast.Try) or p.__class__.__name__ == "TryStar") and any(ch is b for b in p.body):
+                taken = None
+                for h in p.handlers:
+                    leaves = _leaving_statements(h.body)
+                    if leaves and taken is None:
+                        taken = f"the `except {src(h.type) if h.type is not None else ''}` clause around the {what} `{src(site)[:40]}` leaves the loop over the handlers (`{src(leaves[0])[:30]}`)"
+                    if _catches_exception(h):
+                        verdict = taken is None
+                        if taken:
+                            bad.append(taken)
+                        break
+                if verdict is not None:
+                    break
+        if verdict is None:
+            outer = [a for a in fv.ancestors(loop) if (isinstance(a, ast.Try) or a.__class__.__name__ == "TryStar")]
+            where = "is only caught by a try statement around the whole loop" if outer else "is not caught inside the loop"
+            bad.append(f"an exception raised by the {what} `{src(site)[:40]}` {where}: the handlers after the failing one never receive the task")
+    if bad:
+        ctx.ob("R2", "ESC", lp, text, False, "; ".join(sorted(set(bad))))
+    elif unknown:
+        ctx.undecided("R2", "ESC", lp, text, "; ".join(unknown))
+    else:
+        ctx.ob("R2", "ESC", lp, text, True, f"an Exception raised by one handler (or by sending its response) is taken by an except clause inside the loop body that goes on with the next handler ({len(sites)} sites)")
 
 
 def _cid_rule(ctx, lp, gh, task_names, text):
